@@ -523,15 +523,15 @@ PROPERTIES["C10"]["runs"] += [_P10]
 PROPERTIES["C10"]["explanation"] += (" Source level (P10): " + PIPE_EXPL + "the programs of the C01 grammar carry one doc annotation - nilable or nonnil on the callee's parameter, on its result (`result 0`), or nilable on the package-level pointer - "
     "read by the real annotation parser; the annotation changes the oracle: a nilable site holds an arbitrary value (fresh symbolic bool), nil flowing into a nonnil site is an event of its own; "
     "'event possible => reported', 'all dereferences nil-checked and no nonnil annotation => clean', and 'diagnostics only on dereference or flow-in lines' are decided per program.")
-PROPERTIES["C10"]["bounds"]["quick"] += "; source level: 910 programs (5 annotations x call first/last x one more statement)"
-PROPERTIES["C10"]["bounds"]["thorough"] += "; source level: 11830 programs (two more statements)"
+PROPERTIES["C10"]["bounds"]["quick"] += "; source level: 1820 programs (parameter, result and package-level annotations - the latter in three declaration forms, nilable and nonnil - x call first/last x one more statement)"
+PROPERTIES["C10"]["bounds"]["thorough"] += "; source level: the same with two more statements"
 
 PROPERTIES["C09"]["runs"] += [dict(pkg="accumulation", files=PIPE_FILES, entry="Harness_P09", args=dict(sample_every=13, max_samples=24))]
 PROPERTIES["C09"]["explanation"] += (" Source level (P09): " + PIPE_EXPL + "plus the REAL affiliation analyzer. An interface with a getter and a setter, a pointer-receiver and a value-receiver implementation (each returning nil or not, "
-    "dereferencing its parameter unchecked or checked), a use() through the interface (unchecked / checked dereference of the result, nil / non-nil argument) and four conversion shapes (assignment, argument, either in a branch, both); "
+    "dereferencing its parameter unchecked or checked), a use() through the interface (unchecked / checked dereference of the result, nil / non-nil argument) and nine conversion shapes (assignment, argument, either in a branch, both, `:=` reusing an interface variable, return, composite literal, append, a decorator struct embedding the interface and converted to another interface); "
     "single package and split (interface and use() in a dependency). The dispatch is evaluated over the opaque flag: panic possible => reported; well-behaved implementations => clean.")
-PROPERTIES["C09"]["bounds"]["quick"] += "; source level: all 512 programs of the P09 family (256 single-package, 256 split)"
-PROPERTIES["C09"]["outside"] = [o for o in PROPERTIES["C09"]["outside"]] + ["source level: more than two implementations or one interface, embedded structs, conversions by return / composite literal / append"]
+PROPERTIES["C09"]["bounds"]["quick"] += "; source level: all 1152 programs of the P09 family (nine conversion shapes; 576 single-package, 576 split)"
+PROPERTIES["C09"]["outside"] = [o for o in PROPERTIES["C09"]["outside"]] + ["source level: more than two implementations, embedded structs (other than the decorator), conversions of package-level variables, explicit conversions I(x), variadic interface parameters (sub-agents report NilAway misses several of these; outside this family)"]
 
 PROPERTIES["C14"]["runs"] += [dict(pkg="accumulation", files=PIPE_FILES, entry="Harness_P14", quick=dict(params=dict(STMTS=2, COMPOUND=5)), thorough=dict(params=dict(STMTS=3, COMPOUND=4, SIMPLE=5)), args=dict(sample_every=61, max_samples=16))]
 PROPERTIES["C14"]["explanation"] += (" Source level (P14): " + PIPE_EXPL + "for every two-package program of the P01X family each diagnostic has a valid position that resolves to an existing line and column of p.go or q.go "
